@@ -56,7 +56,7 @@ TEXT = {
         "text": "C05_program_refines: for every growth policy and every program of list operations over any number of lists, the transcription of the library's "
                 "append/copy/make usage produces the outcomes and visible contents of the plain sequence model, with ownership of backing arrays as invariant; "
                 "panic domains proved as iff-statements (C05_*_domain), operations characterised position by position (C05_*_spec), panicking single-index "
-                "operations proved to leave the heap unchanged (C05_panic_frame). Reference semantics is the heap model's construction (ids), exercised by programs with aliases.",
+                "operations proved to leave the heap unchanged (C05_panic_frame); C05_mutator_footprint/independent: every mutator writes at most the receiver's own cell, so values that do not reach the receiver read the same afterwards (aliases see the change). Reference semantics is the heap model's construction (ids), exercised by programs with aliases.",
         "note": "Go slices/append modelled by hand (Slice.v) and executed against the code under two growth policies; the heap model (Heap.v) is tied by programs "
                 "with a canonical hash of the reachable heap after every step; Sort restricted to C17's domain and Delete to distinct valid indices in generated programs, as the property states; no axioms.",
     },
@@ -76,7 +76,7 @@ TEXT = {
         "technique": "Coq proof (finite-map characterisation of every object operation through lookup; Permutation for enumeration orders) + differential correspondence check on random programs",
         "text": "Every object operation of the model is characterised as a finite-map operation over arbitrary byte-string keys: Set (last pair wins, "
                 "others untouched, odd count / non-string key panic), Unset (missing key = no-op), Merge (argument wins), Pluck (exactly the requested keys, "
-                "panics iff one is missing), Keys/Values/Dict/Count (same field set for every enumeration order), getters' panic domains as iff-statements. "
+                "panics iff one is missing), Keys/Values/Dict/Count (same field set for every enumeration order), getters' panic domains as iff-statements; C06_mutator_footprint/independent: Set/Unset/Clear write only the receiver's cell. "
                 "The same operations are run against the implementation inside random programs with the canonical heap hash compared after every step.",
         "note": "Go maps modelled as association lists with distinct keys (invariant proved); map iteration order is an explicit checked parameter; "
                 "KeyOf is a relation (some key holding the value); no axioms.",
@@ -88,17 +88,16 @@ TEXT = {
         "text": "clone_val transcribes the two copy() methods. Proved for every heap and every acyclic value: Clone succeeds (C08_total), the clone reads as "
                 "exactly the same tree (C08_equal, hence Equals), the old heap is a prefix of the new one (C08_frame), EVERY container reachable from the clone "
                 "was allocated by the call (C08_fresh), none is reachable from both (C08_disjoint), a value's tree depends only on cells reachable from it "
-                "(C08_reify_frame), and therefore any write to a cell of one side leaves the other unchanged (C08_independent). The check clones random DAG heaps and mutates "
+                "(C08_reify_frame), and therefore any write to a cell of one side leaves the other unchanged (C08_independent); C08_history: after Clone, EVERY program of mutators (methods and tree-form writes, any paths) whose receivers lie on one side leaves the other side's tree unchanged, step after step. The check clones random DAG heaps and mutates "
                 "nodes of either side by methods and tree-form writes, comparing the whole reachable heap after every step.",
-        "note": "history clause = C08_independent applied per mutation (every mutator of the model is a write to cells reachable from its receiver; for tree-form writes "
-                "this is exercised dynamically, the per-mutator footprint lemma is proved for Clone and the deriving ops only); no axioms.",
+        "note": "history clause proved for whole programs (CloneHistory.v) from the per-mutator footprint theorems (Footprint.v: method mutators write one cell, SetTF/UnsetTF on arbitrary strings write only cells reachable from the receiver and append); no axioms.",
     },
     "C10": {
         "engine": "heap",
         "design_ref": "DESIGN.md section 6, C10",
         "technique": "Coq proof (induction over paths and over the string surgery of GetTF/TypeOfTF; arbitrary strings for the agreement theorem) + differential correspondence check with path corruptions",
         "text": "C10_get: GetTF on every well-formed path (rendered with canonical decimal indices) equals step-by-step navigation, panics included; C10_typeof: TypeOfTF is "
-                "that value's kind or Undefined; C10_agree: for EVERY string and heap TypeOfTF = kind of GetTF's result, Undefined exactly when GetTF panics, and TypeOfTF is total. "
+                "that value's kind or Undefined; C10_empty_segment / C10_wrong_sigil_list / C10_wrong_sigil_object / C10_non_numeric_index: each class of malformed path makes GetTF panic and TypeOfTF report Undefined; C10_agree: for EVERY string and heap TypeOfTF = kind of GetTF's result, Undefined exactly when GetTF panics, and TypeOfTF is total. "
                 "Known finding K1 (keys starting with a sigil are reachable through an empty segment) is demonstrated as an Example and re-demonstrated on the code by every run.",
         "note": "pint0 (strconv.ParseInt base 0) transcribed and proved to invert Itoa (GoIntProofs); other index spellings ParseInt accepts are specified by the model and exercised by the check; no axioms.",
     },
@@ -108,7 +107,7 @@ TEXT = {
         "technique": "Coq proof (step/leaf lemmas for the branch-by-branch transcription of SetTF/UnsetTF, induction over paths, frame by visited-container sets) + differential correspondence check on random trees and paths",
         "text": "C11_set_read_back: on acyclic heaps SetTF on every well-formed path succeeds whatever is in the way and GetTF then yields the stored value; "
                 "C11_set_never_panics; C11_set_frame: only visited containers are rewritten, containers keep their kind (right-kind intermediates reused by reference); "
-                "C11_unset: exactly the addressed field/element is removed; C11_unset_frame/absent_key/index_out_of_range: nothing else changes, unresolved paths change nothing.",
+                "C11_unset: exactly the addressed field/element is removed; C11_unset_frame/absent_key/index_out_of_range: nothing else changes, unresolved paths change nothing; C11_set_footprint/unset_footprint/tf_mutator_independent: for ARBITRARY path strings (malformed, panicking half-way) only cells reachable from the receiver are rewritten, so unrelated trees read the same.",
         "note": "holds after the repair of D6 (fix: commit b2b927c); partial in one named respect: the model pads with any index, the process cannot (generated indices stay below n+5); no axioms.",
     },
     "C01": {
@@ -147,7 +146,7 @@ TEXT = {
         "engine": "json", "design_ref": "DESIGN.md section 6, C16",
         "technique": "Coq proof (json.Indent modelled at specification level as reference-decode + canonical re-layout; layout lemmas; composition with C02) + differential check of the exact bytes",
         "text": "C16_canonical/nonempty/valid/same_data/idempotent: for every value in the domain and every n, FormatString(n) = the canonical layout of the tokens String() writes, is valid JSON denoting the same data, and re-indenting reproduces it; "
-                "C16_*_lines: one element per line, n spaces per level, empty containers on one line. The panic for n outside 0..10 and the byte-exact output are compared with the code on every run.",
+                "C16_*_lines: one element per line, n spaces per level, empty containers on one line. C16_range / C16_in_range: format_string (FormatModel.v) panics exactly when n is outside 0..10 and otherwise is the canonical layout; panic and byte-exact output are compared with the code on every run.",
         "note": "json.Indent is modelled (spec level), not transcribed — in the trusted base; holds after D3 (45716dd); " + 'float-text oracles with contract F1/F2/F3/F4 (premises of the theorems; validated inside Coq on every float and token of every run); strconv/utf8/unicode functions transcribed by hand and validated differentially; no axioms.',
     },
     "C20": {
